@@ -131,7 +131,7 @@ def reqKind : Req → String
   | .ls .. => "ls" | .add .. => "add" | .upd .. => "upd" | .rm .. => "rm" | .other => "other"
 
 def showModel (i : Input) : String :=
-  let m := run i
+  let m := runCtx Gen.ctxSites i
   showRes m.res ++ " " ++ (if m.trace.isEmpty then "-" else ",".intercalate (m.trace.map showReq)) ++
     " swarm<" ++ toString m.swarmMax ++ " " ++ ",".intercalate ((List.range i.n).map (fun c => showState (m.final c)))
 
@@ -170,7 +170,7 @@ def answerAux (ws : List String) : String :=
       match parseBeh wire beh with
       | some b =>
         let i : Aux.In := ⟨op, b, v⟩
-        let m := Aux.run i
+        let m := Aux.runCtx Gen.ctxSites i
         let opS := match op with
           | .blockGet => "blockGet" | .blockPut => "blockPut" | .resolve => "resolve"
           | .swarmPeers => "swarmPeers" | .repoGC => "repoGC" | .configKey => "configKey"
@@ -192,13 +192,13 @@ def answer (ws : List String) : String :=
   | some (i, o) =>
     if !wf i then
       -- outside the quantifier (lying daemon / self-contradictory pin): model agreement only
-      if allowed i o then "ok arm=" ++ arm i ++ " trivial"
+      if allowedCtx Gen.ctxSites i o then "ok arm=" ++ arm i ++ " trivial"
       else "diff arm=" ++ arm i ++ " model=" ++ showModel i
     else
     let failed := (clauses i o).filter (fun c => !c.2)
     if !failed.isEmpty then
       "propfail " ++ ",".intercalate (failed.map (·.1)) ++ " arm=" ++ arm i
-    else if !allowed i o then
+    else if !allowedCtx Gen.ctxSites i o then
       "diff arm=" ++ arm i ++ " model=" ++ showModel i
     else "ok arm=" ++ arm i
 
